@@ -121,6 +121,15 @@ class TU:
             if rc != 0:
                 self.err = "clang failed on %s:\n%s" % (s, err[-3000:]); return
             lls.append(ll)
+            if i == 0:
+                # the harness TU's own (non-template, non-inline) functions: never cut by "cut *"
+                own = []
+                with open(ll) as f:
+                    for line in f:
+                        if line.startswith("define") and "linkonce" not in line.split("@")[0] and "weak" not in line.split("@")[0] and "available_externally" not in line.split("@")[0]:
+                            m = re.search(r"@([\w.$]+)\(", line) or re.search(r'@"([^"]+)"\(', line)
+                            if m: own.append(m.group(1))
+                self.own = own
         linked = os.path.join(self.dir, "linked.ll")
         rc, out, err, _ = run(["llvm-link-14", "-S", "-o", linked] + lls, timeout=300)
         if rc != 0:
@@ -141,6 +150,8 @@ class TU:
         with open(cfgf, "w") as f:
             for l in self.spec.get("ll2c", []):
                 f.write(l + "\n")
+            for n in getattr(self, "own", []):
+                f.write("own " + n + "\n")
         metaf = os.path.join(self.dir, "meta.json")
         rc, out, err, _ = run([LL2C, optll, cfgf, metaf], timeout=300)
         if rc != 0:
@@ -162,24 +173,42 @@ class TU:
     def has_cuts(self):
         return any(l.startswith("cut") or l.startswith("replace") for l in self.spec.get("ll2c", []))
 
+    def native_sources(self):
+        rs = list(self.spec.get("repo_srcs", []))
+        ns = self.spec.get("native_srcs", [])
+        if ns == "all":
+            ns = LIB_SRCS
+        for n in ns:
+            if n not in rs: rs.append(n)
+        return [os.path.join(REPO, "src", r) for r in rs]
+
     def build_native(self, asan=False):
-        """g++ build of the harness against the real sources, and gcc build of the generated C"""
+        """g++ build of the harness against the real sources (compiled fresh from /repo), and gcc build of the generated C"""
         with self.lock:
             if asan:
                 if self.native_asan is not None: return
             elif self.native_done: return
-            srcs = [os.path.join(HARN, self.spec["src"])] + [os.path.join(REPO, "src", r) for r in self.spec.get("repo_srcs", [])]
+            san = ["-g", "-fsanitize=address,undefined", "-fno-sanitize-recover=undefined"] if asan else []
+            objs = []
+            srcs_ = self.native_sources()
+            with cf.ThreadPoolExecutor(max_workers=max(1, len(srcs_))) as ex_:
+                objs_ = list(ex_.map(lambda s_: compile_repo_obj(s_, self.includes(), san, os.path.dirname(self.dir)), srcs_))
+            for src, o in zip(srcs_, objs_):
+                if not o:
+                    self.native_err = "g++ failed on " + src
+                    if asan: self.native_asan = ""
+                    else: self.native_cxx = ""; self.native_c = ""; self.native_done = True
+                    return
+                objs.append(o)
             libs = ["-ldl", "-lmpfr", "-lgmp", "-lz"] + self.spec.get("native_libs", [])
+            exe = os.path.join(self.dir, "native_asan" if asan else "native_cxx")
+            cmd = ["g++", "-std=c++17", "-O0", "-w", "-DNDEBUG", "-DVP_NATIVE", "-DVP_NATIVE_CXX", "-rdynamic"] + san + self.includes() + self.defs + \
+                  [os.path.join(HARN, self.spec["src"]), os.path.join(ENGINE, "vp_native_main.cpp")] + objs + ["-o", exe] + libs
+            rc, out, err, _ = run(cmd, timeout=1200)
             if asan:
-                exe = os.path.join(self.dir, "native_asan")
-                cmd = ["g++", "-std=c++17", "-O0", "-g", "-fsanitize=address,undefined", "-fno-sanitize-recover=undefined", "-w", "-DNDEBUG", "-DVP_NATIVE", "-DVP_NATIVE_CXX", "-rdynamic"] + self.includes() + self.defs + srcs + [os.path.join(ENGINE, "vp_native_main.cpp"), "-o", exe] + libs
-                rc, out, err, _ = run(cmd, timeout=900)
                 self.native_asan = exe if rc == 0 else ""
                 if rc != 0: self.native_err = err[-2000:]
                 return
-            exe = os.path.join(self.dir, "native_cxx")
-            cmd = ["g++", "-std=c++17", "-O0", "-w", "-DNDEBUG", "-DVP_NATIVE", "-DVP_NATIVE_CXX", "-rdynamic"] + self.includes() + self.defs + srcs + [os.path.join(ENGINE, "vp_native_main.cpp"), "-o", exe] + libs
-            rc, out, err, _ = run(cmd, timeout=900)
             self.native_cxx = exe if rc == 0 else ""
             if rc != 0: self.native_err = "g++: " + err[-2000:]
             if not self.has_cuts():
@@ -194,6 +223,24 @@ class TU:
             else:
                 self.native_c = ""
             self.native_done = True
+
+LIB_SRCS = ["soplex/didxset.cpp", "soplex/idxset.cpp", "soplex/mpsinput.cpp", "soplex/nameset.cpp", "soplex/spxdefines.cpp", "soplex/spxgithash.cpp",
+            "soplex/spxid.cpp", "soplex/spxout.cpp", "soplex/usertimer.cpp", "soplex/wallclocktimer.cpp"]
+_obj_lock = threading.Lock(); _obj_cache = {}
+def compile_repo_obj(src, includes, san, wd):
+    key = (src, tuple(san))
+    with _obj_lock:
+        ent = _obj_cache.get(key)
+        if ent is None:
+            ent = {"lock": threading.Lock(), "obj": None, "done": False}
+            _obj_cache[key] = ent
+    with ent["lock"]:
+        if not ent["done"]:
+            od = os.path.join(wd, "objs"); os.makedirs(od, exist_ok=True)
+            o = os.path.join(od, re.sub(r"\W", "_", src) + ("_san" if san else "") + ".o")
+            rc, out, err, _ = run(["g++", "-std=c++17", "-O0", "-w", "-DNDEBUG"] + san + includes + ["-c", src, "-o", o], timeout=900)
+            ent["obj"] = o if rc == 0 else None; ent["done"] = True
+    return ent["obj"]
 
 # ---------------------------------------------------------------------------------------------
 RES_RE = re.compile(r"^\[([^\]]+)\]\s+(?:line (\d+)\s+)?(.*): (SUCCESS|FAILURE|UNKNOWN|ERROR)$")
@@ -234,8 +281,11 @@ def traces_from(out):
         res[name] = [vals.get(k, 0) for k in range(min(n, TRACE_N))]
     return res
 
-def cbmc_run(tu, entry, unwind, unwindset, timeout, mem_gb, flags, defs):
-    cmd = ["cbmc", tu.c, "-I", ENGINE, "-DVP_TRACE=%d" % TRACE_N] + defs + ["--function", "vp_entry_" + entry, "--unwind", str(unwind)] + CBMC_BASE + flags
+def cbmc_run(tu, entry, unwind, unwindset, timeout, mem_gb, flags, defs, trace=True):
+    # trace=False is the loop-bound discovery mode: only unwinding assertions are checked
+    base = CBMC_BASE if trace else ["--unwinding-assertions", "--drop-unused-functions", "--no-malloc-may-fail", "--object-bits", "12",
+                                    "--max-field-sensitivity-array-size", "2048", "--no-standard-checks", "--no-assertions", "--verbosity", "8"]
+    cmd = ["cbmc", tu.c, "-I", ENGINE, "-DVP_TRACE=%d" % TRACE_N] + defs + ["--function", "vp_entry_" + entry, "--unwind", str(unwind)] + base + flags
     if unwindset:
         cmd += ["--unwindset", ",".join("%s:%d" % (k, v) for k, v in sorted(unwindset.items()))]
     rc, out, err, secs = run(cmd, timeout=timeout, mem_gb=mem_gb)
@@ -283,6 +333,8 @@ def run_obligation(prop, tier, tu, o, cfg, unwind_hints, seed, wd):
     hint_key = "%s/%s/%s" % (tu.key, o["entry"], tier)
     for k, v in unwind_hints.get(hint_key, {}).items():
         unwindset[k] = max(unwindset.get(k, 0), v)
+    # without learned bounds the first iterations run without trace generation (failed unwinding assertions print long traces)
+    use_trace = hint_key in unwind_hints or bool(cfg.get("trace_first", False))
     timeout = float(cfg.get("timeout", 600)); mem = float(cfg.get("mem_gb", 10))
     maxunwind = int(cfg.get("max_unwind", 130))
     flags = list(cfg.get("flags", [])); defs = list(tu.spec.get("cbmc_defs", [])) + list(cfg.get("cbmc_defs", []))
@@ -294,10 +346,14 @@ def run_obligation(prop, tier, tu, o, cfg, unwind_hints, seed, wd):
         left = deadline - time.time()
         if left <= 1:
             r.update(status="inconclusive", reason="timeout after %ds (auto-unwind iteration %d)" % (timeout, iters)); break
-        rc, out, err, secs, cmd = cbmc_run(tu, o["entry"], unwind, unwindset, left, mem, flags, defs)
+        rc, out, err, secs, cmd = cbmc_run(tu, o["entry"], unwind, unwindset, left, mem, flags, defs, use_trace)
         r["cbmc_cmd"] = " ".join(cmd)
         if rc == -999:
             r.update(status="inconclusive", reason="timeout after %ds" % timeout); break
+        try:
+            open(os.path.join(tu.dir, o["entry"] + ".cbmc.out"), "w").write(out + "\n=== stderr ===\n" + err)
+        except OSError:
+            pass
         props, st = parse_cbmc(out)
         if not props:
             tail = (out[-1500:] + "\n" + err[-1500:]).strip()
@@ -307,6 +363,8 @@ def run_obligation(prop, tier, tu, o, cfg, unwind_hints, seed, wd):
             r.update(status="inconclusive", reason=reason + ": " + tail[-800:]); break
         uw = [p for p in props if p["status"] == "FAILURE" and ".unwind." in p["name"]]
         if not uw:
+            if not use_trace:
+                use_trace = True; continue
             break
         grew = False
         for p in uw:
@@ -502,8 +560,10 @@ def main():
                 r = run_obligation(prop, tier, tu, o, cfg, unwind_hints, seed, wd)
             finally:
                 if heavy: heavy_sem.release()
+            tv0 = time.time()
             validate_and_replay(prop, tier, tu, r, seed, nrand, os.path.join(ROOT, "replays"))
-            log("  %-44s %-13s %6.1fs %s" % (r["name"], r["status"], r.get("wall_s", 0), (r.get("reason") or "")[:160]))
+            r["validate_s"] = round(time.time() - tv0, 1)
+            log("  %-44s %-13s cbmc %6.1fs (%d it) validate %5.1fs %s" % (r["name"], r["status"], r.get("wall_s", 0), r.get("cbmc_iterations", 0), r["validate_s"], (r.get("reason") or "")[:160]))
             return (tu, r)
         results = list(ex.map(work, obls))
     # learned unwind hints (only hints: unwinding assertions always re-check them)
